@@ -344,3 +344,20 @@ Definition seq_round (p : params) (fails : list addr -> bool) (s : st) : option 
       | Some s1 => seq_round_loop (4 * length srt + 4) p fails s1 []
       end
   end.
+
+(* ---------------------------------------------------------------- healthy runs (progress statement) *)
+(* Writes have stopped and the main storage accepts writes: no put / delete / restart, every storage call
+   succeeds, and every round starts from a complete snapshot (all counted addresses not in flight). *)
+Definition hok (s : st) (l : label) : bool :=
+  match l with
+  | LPut _ _ | LDel _ | LRestart => false
+  | LStore _ ok => ok
+  | LBegin srt => forallb (fun e => mem (fst e) (infl s) || mem (fst e) (keys srt)) (cmap s)
+  | _ => true
+  end.
+
+Fixpoint hrun (p : params) (ls : list label) (s : st) : option st :=
+  match ls with
+  | [] => Some s
+  | l :: r => if hok s l then match step p l s with Some s' => hrun p r s' | None => None end else None
+  end.
